@@ -20,6 +20,59 @@ func Content(r *Rand, class string, w, h, c, p, aux int) []int {
 		for i := range s {
 			s[i] = int(r.U64() & uint64(max))
 		}
+	case "blocks8":
+		// every aligned 8x8 cell entirely 0 or entirely MAXVAL (largest legal DC differences
+		// between neighbouring DCT blocks; flat blocks next to saturated ones)
+		cw := (w + 7) / 8
+		ch := (h + 7) / 8
+		on := make([]bool, cw*ch*c)
+		for i := range on {
+			on[i] = r.Bool()
+		}
+		for y := 0; y < h; y++ {
+			for x := 0; x < w; x++ {
+				for k := 0; k < c; k++ {
+					if on[((y/8)*cw+x/8)*c+k] {
+						*at(x, y, k) = max
+					}
+				}
+			}
+		}
+	case "annot":
+		// speckle whose strength grows across the frame (many run/size symbols with very unequal
+		// counts: longest optimised Huffman codes) with burnt-in annotation boxes: 16x16 black
+		// squares holding a solid full-scale glyph (full-range edges: largest magnitude categories)
+		for y := 0; y < h; y++ {
+			for x := 0; x < w; x++ {
+				amp := max/64 + (max/4)*x/w + 1
+				for k := 0; k < c; k++ {
+					v := max*35/100 + r.Intn(2*amp+1) - amp
+					if v < 0 {
+						v = 0
+					}
+					if v > max {
+						v = max
+					}
+					*at(x, y, k) = v
+				}
+			}
+		}
+		nb := 20 + r.Intn(40)
+		for b := 0; b < nb && w > 16 && h > 16; b++ {
+			x0, y0 := r.Intn(w-16), r.Intn(h-16)
+			gw, gh := 3+r.Intn(10), 3+r.Intn(10)
+			for y := y0; y < y0+16; y++ {
+				for x := x0; x < x0+16; x++ {
+					v := 0
+					if x >= x0+2 && x < x0+2+gw && y >= y0+2 && y < y0+2+gh {
+						v = max
+					}
+					for k := 0; k < c; k++ {
+						*at(x, y, k) = v
+					}
+				}
+			}
+		}
 	case "varnoise":
 		// noise whose amplitude changes from one 8x8 cell to the next (0..P random bits around
 		// mid-grey): code-block / segment byte counts spread over a wide range instead of
